@@ -2716,3 +2716,36 @@ Proof.
   eexists. split; [vm_compute; reflexivity|].
   split; [reflexivity|]. split; [vm_compute; repeat constructor; simpl; tauto|]. split; reflexivity.
 Qed.
+
+Lemma count_ev_app e a b : count_ev e (a ++ b) = count_ev e a + count_ev e b.
+Proof. unfold count_ev. now rewrite filter_app, app_length. Qed.
+
+Lemma count_split e (tr : list (bool * event)) :
+  count_ev e (map snd tr) =
+  count_ev e (map snd (filter fst tr)) + count_ev e (map snd (filter (fun x => negb (fst x)) tr)).
+Proof.
+  induction tr as [|[b x] tr IH]; [reflexivity|].
+  change (map snd ((b, x) :: tr)) with ([x] ++ map snd tr). rewrite count_ev_app, IH.
+  destruct b; simpl.
+  - change (x :: map snd (filter fst tr)) with ([x] ++ map snd (filter fst tr)). rewrite count_ev_app. lia.
+  - change (x :: map snd (filter (fun x0 => negb (fst x0)) tr)) with ([x] ++ map snd (filter (fun x0 => negb (fst x0)) tr)).
+    rewrite count_ev_app. lia.
+Qed.
+
+(* the strongest true form of "at most once" for the WHOLE trace: over all schedules an event
+   occurs at most as often as the handlers' single pass over pairwise distinct instances emits
+   it plus as often as the sequential reload itself does *)
+Lemma race_whole_trace_bound l p cs m :
+  NoDup (ids l) -> rrun (rinit l p) cs = Some m ->
+  NoDup (ids (r_iters m)) /\
+  forall e, count_ev e (ftrace m) <=
+            count_ev e ((if r_once m then [EHook HShutdown 0] else []) ++ all_shutdown (r_iters m))
+            + count_ev e (prog_events p).
+Proof.
+  intros Hn Hr. destruct (race_handlers_once l p cs m Hn Hr) as [H1 H2]. split; [exact H1|].
+  intros e. unfold ftrace. rewrite count_split.
+  change (map snd (filter fst (r_tr m))) with (htrace m).
+  change (map snd (filter (fun x => negb (fst x)) (r_tr m))) with (rtrace m).
+  rewrite H2. pose proof (race_program_order l p cs m Hr) as Hp. rewrite <- Hp.
+  rewrite (count_ev_app e (rtrace m)). lia.
+Qed.
